@@ -621,6 +621,17 @@ class Interp:
         m = models.lookup(fn)
         if m is not None and (symbolic or m.always):
             return m.f(self, *args, **kwargs)
+        if (symbolic or (isinstance(fn, types.BuiltinMethodType) and is_symbolic(getattr(fn, "__self__", None)))) and isinstance(
+            fn, types.BuiltinMethodType
+        ) and isinstance(getattr(fn, "__self__", None), list | tuple) and fn.__name__ in models.LIST_METHOD_MODELS:
+            return models.LIST_METHOD_MODELS[fn.__name__](self, fn.__self__, *args, **kwargs)
+        if symbolic and models.shallow_safe(fn, args, kwargs):
+            try:
+                return fn(*args, **kwargs)
+            except (EngineError, PathAbort):
+                raise
+            except Exception as e:  # noqa: BLE001
+                raise PyRaise(e)
         if isinstance(fn, type) and (symbolic or self._wants_interp_cls(fn)):
             return self.construct(fn, args, kwargs)
         if isinstance(fn, types.FunctionType) and interpretable(fn) and (symbolic or self._wants_interp(fn)):
